@@ -1,4 +1,8 @@
 import JadeModel.Proofs.SystemUniqueB
+import JadeModel.Proofs.SystemUniqueCStepA
+import JadeModel.Proofs.SystemUniqueCStepB
+import JadeModel.Proofs.SystemUniqueCStepC
+import JadeModel.Proofs.SystemUniqueCStepD
 
 set_option linter.unusedSimpArgs false
 
@@ -6,36 +10,12 @@ set_option linter.unusedSimpArgs false
 
 namespace Jade.Sys
 
-structure PlainC (s : Sys) : Prop where
-  queuedNoRow : ∀ p a n, s.procs p = .node a n → ∀ j ∈ n.queued, ¬ HasRow s j
-  runningNoRow : ∀ p a n, s.procs p = .node a n → ∀ j ∈ n.running, ¬ HasRow s j
-  queuedRunning : ∀ p a n, s.procs p = .node a n → ∀ j ∈ n.queued, j ∉ n.running
-  cancelNoRow : ∀ q a y, s.procs q = .sub a y → holds y.pc = true → ∀ j ∈ y.toCancel, ¬ HasRow s j
-  /-- the jobs of a batch that has not started have no row -/
-  pendingNoRow : ∀ B ∈ s.batches, ∀ h, B.hid = some h → s.slurm h = some .pending → ∀ j ∈ B.jobs, ¬ HasRow s j
-  uniq : UniqF s.processed s.nodeFile
-
-theorem plainC_init (sc : Scn) : PlainC (init sc) := by
-  refine ⟨?_, ?_, ?_, ?_, ?_, ?_⟩ <;> simp [init]
-  exact uniqF_nil
-
-set_option maxHeartbeats 64000000 in
 theorem plainC_step {s s' : Sys} {op : Op} (hn : NodeInv s) (ha : PlainA s) (hb : PlainB s) (hi : PlainC s)
     (h : step s op = some s') (hf : op.risky = false) : PlainC s' := by
-  have hu := @node_job_unique s hn
-  have hm := @mem_unique_batch s.batches hn.batch.jobsNodup
-  obtain ⟨⟨⟨r1, r2, r3, r4, r5⟩, l1, l2, l3, -, -, -, -⟩, n1, n2, n3, n4, n5, n6, n7, n8⟩ := hn
-  obtain ⟨a1, a2, a3, a4, a5⟩ := ha
-  obtain ⟨b1, b2, b3, b4, b5⟩ := hb
-  obtain ⟨c1, c2, c3, c4, c5, c6⟩ := hi
-  cases op <;> (first | (cases hf; done) | skip) <;> step_cases h <;>
-    (refine ⟨?_, ?_, ?_, ?_, ?_, ?_⟩ <;> frame_uqb)
-  all_goals first
-    | proc_clause
-    | exact c6
-    | exact uniqF_move c6 _
-    | (refine uniqF_snocProc c6 _ ?_; grind)
-    | (refine uniqF_snocNode c6 _ _ ?_; grind)
-    | grind [SubP.load, persistStatus, find?_hid, cancelSetOk_iff, mustCancel_iff, List.nodup_cons]
+  obtain ⟨c_queuedNoRow, c_uniq⟩ := plainC_step_a hn ha hb hi h hf
+  obtain ⟨c_runningNoRow, c_pendingNoRow⟩ := plainC_step_b hn ha hb hi h hf
+  have c_queuedRunning := plainC_step_c hn ha hb hi h hf
+  have c_cancelNoRow := plainC_step_d hn ha hb hi h hf
+  exact ⟨c_queuedNoRow, c_runningNoRow, c_queuedRunning, c_cancelNoRow, c_pendingNoRow, c_uniq⟩
 
 end Jade.Sys
